@@ -11,11 +11,13 @@ THEOREMS = ["Mesa.Cells." + t for t in (
     "C07_moore_offsets_spec", "C07_vn_offsets_spec", "C07_generated_tables_are_generic", "C07_hex_touching",
     "C07_connect_spec", "C07_connect_2d_is_nd", "C07_connect_symm", "C07_grid_connections", "C07_grid_cells",
     "C07_grid_symmetric", "C07_network_connections", "C07_voronoi_connections_partial", "C07_nbhd_spec",
-    "C07_reach_is_path", "C07_cache_transparent", "C07_cache_transparent_from")]
+    "C07_reach_is_path", "C07_cache_transparent", "C07_cache_transparent_from", "C07_connections_are_dicts",
+    "C07_connect_disconnect_spec", "C07_cache_transparent_under_edits")]
 COUNTS = {"quick": 1200, "thorough": 30000}
 TRUSTED = [
     "Python dict semantics (insertion order, update keeps the position of existing keys, pop) modelled as duplicate-free lists",
-    "functools.cache / cached_property: a memo table keyed by (self, radius, include_center); exceptions are not cached",
+    "functools.cache / cached_property: a memo table keyed by (self, radius, include_center); exceptions are not cached; "
+    "cache_clear() empties the table of every cell, popping `neighborhood` from the instance dict forgets the property",
     "itertools.product order; Python % on ints with a positive modulus = Int.emod",
     "networkx Graph/DiGraph.neighbors = adjacency in insertion order of the edge list",
     "Voronoi: the triangle list comes from the code's float Bowyer-Watson; only `_connect_cells` over that list is modelled. "
@@ -24,7 +26,7 @@ TRUSTED = [
     "numpy fancy indexing in get_neighborhood_mask",
 ]
 ASSUMPTIONS = [
-    "connections are not edited after the space is built (Cell.connect/disconnect invalidate nothing: out of the quantifier)",
+    "Cell.connect / Cell.disconnect are called on cells of the same space, with int / int-tuple keys or the default key",
     "hex tori have an even size along the offset axis (coordinate[1]); other hex tori are followed by the model but not covered by the symmetry/touching theorems",
     "Network: simple graphs on nodes 0..n-1; Voronoi: integer points in general position (no 3 collinear, no 4 cocircular)",
 ]
@@ -32,8 +34,11 @@ RULE = ("exhaustive small scope: every cell x radius 1..3 (thorough 1..5) x incl
         "on every Moore/von Neumann grid with <= 3 axes of size <= 4 (quick: 3 axes <= 3; thorough adds 4 axes <= 3) and hex grids "
         "<= 6x6, torus on/off, in two query orders (ascending positional / descending keyword calls, so memo tables are hit in both "
         "directions); plus random scenarios: grids with 1-4 axes biased to sizes 1 and 2, hex, Network on random graphs <= 12 nodes incl. "
-        "isolated nodes and some DiGraphs, VoronoiGrid on 3-9 integer points; 8-40 queries + 50% repeated, shuffled; radius 0 and "
-        "non-cells are rejected; answers sorted (the property speaks of sets); non-trivial = >= 5 neighbourhood queries with a "
+        "isolated nodes and some DiGraphs, VoronoiGrid on 3-9 integer points; 8-40 queries + 50% repeated, shuffled (4%: the neighbourhood used as a CellCollection: cells, len, "
+        "in, select, select_random_cell by position); radius 0 and "
+        "non-cells are rejected; 35% of the random scenarios and a built-in sweep (every ordered cell pair of five small spaces: "
+        "all queries, connect, all queries, disconnect, all queries) edit connections between the queries with Cell.connect / "
+        "Cell.disconnect (existing / new / default keys); answers sorted (the property speaks of sets); non-trivial = >= 5 neighbourhood queries with a "
         "non-empty answer; distinct = distinct op-line sequences")
 HEADER_LINES = 1
 
@@ -48,7 +53,7 @@ def gen_tables():
 
 
 def builtin_corpus():
-    return C.exhaustive_c07(_tier())
+    return C.exhaustive_c07(_tier()) + C.edit_sweeps()
 
 
 def generate(rng, tier, count):
